@@ -21,6 +21,7 @@ func init() {
 			"R1.6 the shard's cached report is written only from the fetched report, with freshly allocated entries disjoint from the map handed to the planner (never from the request: a failed POST is retried); " +
 			"R1.7 one discovery snapshot per replica iteration is passed to every planning step; " +
 			"R1.8 crash freedom, structural part: integer divisions by an Option field are guarded by field!=0 on the path or validated non-zero before NewCoordinator; report getters return non-nil containers on every return. " +
+			"R1.10 the function that starts the posting goroutines waits for all of them itself on every path before it returns (a post still in flight would land after a later cycle's post); R1.8 also: the weights of the random pick are positive for every offered shard (limit - load of a dimension whose fit test holds there), since the chooser's construction error is discarded and a chooser of zero weights is nil. " +
 			"Not decided: the loop-level invariant over three or more holders (iteration order, runtime loads); crash freedom for run-time-bounded values.",
 		Assumptions: []string{"go/types and go/ssa are correct", "field-based may-alias memory model", "a JSON decoder writing null through an escaped address is outside what a sidecar produces"}})
 }
@@ -54,6 +55,7 @@ func runC01(p *engine.Prog, r *engine.Report) {
 	r.Min("R1.7-one-snapshot", 1)
 	r.Min("R1.8-crash-freedom", 5)
 	r.Min("R1.9-gc-first", 1)
+	r.Min("R1.10-apply-joined", 1)
 
 	// ---- R1.1 + R1.2
 	for i, st := range c.fieldStores {
@@ -90,77 +92,77 @@ func runC01(p *engine.Prog, r *engine.Report) {
 		allFound := true
 		sites := c.decisionSites(del)
 		for _, site := range sites {
-		found := false
-		// J1: absent from a discovered map
-		for _, b := range fn.Blocks {
-			for _, in := range b.Instrs {
-				lk, ok := in.(*ssa.Lookup)
-				if !ok {
-					continue
-				}
-				if activeT != nil && types.Identical(lk.X.Type().Underlying(), activeT) && fi.T(lk.Index).S == kt {
-					base := fi.T(lk.X).S + "[" + kt + "]"
-					j1 := engine.Or(engine.Not(engine.A("has("+base+")")), engine.EqAtom(base, "nil"))
-					// include versioned variants: use the lookup's own rendering
-					own := fi.T(lk).S
-					if lk.CommaOk {
-						own = strings.TrimSuffix(fi.T(lk).S, "")
-					}
-					j1 = engine.Or(j1, engine.Not(engine.A("has("+ownBase(fi, lk)+")")), engine.EqAtom(ownBase(fi, lk), "nil"))
-					_ = own
-					if ok, _ := site.implies(fi, j1); ok {
-						found = true
-						just = append(just, "J1: key absent from the discovered map "+fi.T(lk.X).S)
-					}
-				}
-			}
-		}
-		if !found {
-			// J2: another certified holder
+			found := false
+			// J1: absent from a discovered map
 			for _, b := range fn.Blocks {
 				for _, in := range b.Instrs {
 					lk, ok := in.(*ssa.Lookup)
-					if !ok || fi.T(lk.Index).S != kt {
+					if !ok {
 						continue
 					}
-					o, ok := loadOfField(lk.X, c.fScraping)
-					if !ok || fi.T(o).S == st {
-						continue
-					}
-					ot := fi.T(o).S
-					oe := ownBase(fi, lk)
-					se := fi.ElemPath(fi.FieldPath(st, del, c.fScraping), c.fScraping.Type(), kt, lk)
-					distinct := engine.Not(engine.EqAtom(st, ot))
-					nonnil := engine.Not(engine.EqAtom(oe, "nil"))
-					sState := fi.FieldPath(se, lk, c.fState)
-					oState := fi.FieldPath(oe, lk, c.fState)
-					j2a := engine.And(distinct, nonnil, engine.EqAtom(sState, `"in_transfer"`), engine.EqAtom(oState, `""`))
-					lt := func(f *types.Var) *engine.Formula {
-						return engine.LtAtom(engine.Sym(fi.FieldPath(ot, lk, c.fRuntime, f)), engine.Sym(fi.FieldPath(st, lk, c.fRuntime, f)))
-					}
-					j2b := engine.And(distinct, nonnil, engine.EqAtom(sState, oState), engine.Or(lt(c.fHead), lt(c.fProc)))
-					okA, _ := site.implies(fi, j2a)
-					okB, _ := site.implies(fi, j2b)
-					if !okA && !okB {
-						tried = append(tried, "holder "+ot+": neither J2a nor J2b is implied")
-						continue
-					}
-					if okc, why := c.certified(fn, o, del); !okc {
-						tried = append(tried, "holder "+ot+" is not certified in sync: "+why)
-						continue
-					}
-					found = true
-					if okA {
-						just = append(just, "J2a: own copy in-transfer, normal copy on in-sync shard "+ot)
-					} else {
-						just = append(just, "J2b: same state, strictly lower load on in-sync shard "+ot)
+					if activeT != nil && types.Identical(lk.X.Type().Underlying(), activeT) && fi.T(lk.Index).S == kt {
+						base := fi.T(lk.X).S + "[" + kt + "]"
+						j1 := engine.Or(engine.Not(engine.A("has("+base+")")), engine.EqAtom(base, "nil"))
+						// include versioned variants: use the lookup's own rendering
+						own := fi.T(lk).S
+						if lk.CommaOk {
+							own = strings.TrimSuffix(fi.T(lk).S, "")
+						}
+						j1 = engine.Or(j1, engine.Not(engine.A("has("+ownBase(fi, lk)+")")), engine.EqAtom(ownBase(fi, lk), "nil"))
+						_ = own
+						if ok, _ := site.implies(fi, j1); ok {
+							found = true
+							just = append(just, "J1: key absent from the discovered map "+fi.T(lk.X).S)
+						}
 					}
 				}
 			}
-		}
-		if !found {
-			allFound = false
-		}
+			if !found {
+				// J2: another certified holder
+				for _, b := range fn.Blocks {
+					for _, in := range b.Instrs {
+						lk, ok := in.(*ssa.Lookup)
+						if !ok || fi.T(lk.Index).S != kt {
+							continue
+						}
+						o, ok := loadOfField(lk.X, c.fScraping)
+						if !ok || fi.T(o).S == st {
+							continue
+						}
+						ot := fi.T(o).S
+						oe := ownBase(fi, lk)
+						se := fi.ElemPath(fi.FieldPath(st, del, c.fScraping), c.fScraping.Type(), kt, lk)
+						distinct := engine.Not(engine.EqAtom(st, ot))
+						nonnil := engine.Not(engine.EqAtom(oe, "nil"))
+						sState := fi.FieldPath(se, lk, c.fState)
+						oState := fi.FieldPath(oe, lk, c.fState)
+						j2a := engine.And(distinct, nonnil, engine.EqAtom(sState, `"in_transfer"`), engine.EqAtom(oState, `""`))
+						lt := func(f *types.Var) *engine.Formula {
+							return engine.LtAtom(engine.Sym(fi.FieldPath(ot, lk, c.fRuntime, f)), engine.Sym(fi.FieldPath(st, lk, c.fRuntime, f)))
+						}
+						j2b := engine.And(distinct, nonnil, engine.EqAtom(sState, oState), engine.Or(lt(c.fHead), lt(c.fProc)))
+						okA, _ := site.implies(fi, j2a)
+						okB, _ := site.implies(fi, j2b)
+						if !okA && !okB {
+							tried = append(tried, "holder "+ot+": neither J2a nor J2b is implied")
+							continue
+						}
+						if okc, why := c.certified(fn, o, del); !okc {
+							tried = append(tried, "holder "+ot+" is not certified in sync: "+why)
+							continue
+						}
+						found = true
+						if okA {
+							just = append(just, "J2a: own copy in-transfer, normal copy on in-sync shard "+ot)
+						} else {
+							just = append(just, "J2b: same state, strictly lower load on in-sync shard "+ot)
+						}
+					}
+				}
+			}
+			if !found {
+				allFound = false
+			}
 		}
 		found := allFound
 		have := strings.Join(just, "; ")
@@ -488,6 +490,8 @@ func runC01(p *engine.Prog, r *engine.Report) {
 		c.checkStatusDerefs(r, activeT)
 	}
 	c.checkGCFirst(r)
+	c.checkApplyJoined(r)
+	c.checkPickWeights(r)
 }
 
 // ownBase renders m[k] of a Lookup with its version (without the has()/tuple wrapper).
